@@ -141,6 +141,36 @@ CORPUS = [
      [((0, 0, 0), 'm1_-1.5e-3'), ((1.5, 0, 0), 'm1_-1.5e-3'),
       ((2.5, 0, 0), 'm1_-1.5e-3'), ((3.5, 0, 0), 'm2_.5e1'), ((4.5, 0, 0), 'm0')],
      {'m1_-1.5e-3', 'm2_.5e1'}),
+    # LIKE chains: the overrides written on an INTERMEDIATE card must reach the
+    # last copy, at level 0 (TRCL copies) and inside filling universes
+    ('like-chains', '''corpus like chains
+1 1 -1.0 -1 imp:n=1
+2 like 1 but mat=2 rho=-7.8 trcl=(3 0 0)
+3 like 2 but trcl=(6 0 0)
+4 like 3 but rho=-7.90 trcl=(9 0 0)
+5 0 -5 fill=3 imp:n=1
+6 0 -6 fill=4 imp:n=1
+7 0 1 2 3 4 5 6 -9 imp:n=1
+8 0 9 imp:n=0
+10 1 -1.0 -8 u=1 imp:n=1
+11 like 10 but mat=3 rho=-2.7 u=2
+12 like 11 but u=3
+13 like 12 but rho=-2.75 u=4
+
+1 so 1
+2 s 3 0 0 1
+3 s 6 0 0 1
+4 s 9 0 0 1
+5 s 0 4 0 1
+6 s 0 -4 0 1
+8 so 60
+9 so 20
+
+''' + MATS, [],
+     [((0, 0, 0), 'm1_-1.0'), ((3, 0, 0), 'm2_-7.8'), ((6, 0, 0), 'm2_-7.8'),
+      ((9, 0, 0), 'm2_-7.9'), ((0, 4, 0), 'm3_-2.7'), ((0, -4, 0), 'm3_-2.75'),
+      ((0, 0, 5), 'm0')],
+     {'m1_-1.0', 'm2_-7.8', 'm2_-7.9', 'm3_-2.7', 'm3_-2.75'}),
     # the two spellings repaired in /repo 6d1467b
     ('repaired-spellings', '''corpus repaired
 1 1 -1.0 -1 imp:n=1
